@@ -523,7 +523,7 @@ fn generate_texture_dummy_data(
         ),
     )))?;
 
-    let data = format.dummy_fill_color_bytes().repeat((width * height) as usize);
+    let data = format.dummy_fill_color_bytes().repeat(width as usize * height as usize);
     Ok(data.into())
 }
 
@@ -1142,7 +1142,7 @@ fn gather_script_ids(ast: &ast::ScriptFile, ctx: &mut CompilerContext) -> Result
         match &item.value {
             &ast::Item::Script { number, ref ident, .. } => {
                 let script_id = number.unwrap_or(sp!(ident.span => next_auto_script));
-                next_auto_script = script_id.value + 1;
+                next_auto_script = script_id.value.wrapping_add(1);
 
                 // give a better error on redefinitions than the generic "ambiguous auto const" message
                 match script_ids.entry(ident.value.clone()) {
@@ -1174,7 +1174,7 @@ fn strip_unnecessary_sprite_ids<'a>(entry_sprites: impl IntoIterator<Item=&'a mu
             if actual_id == next_auto_sprite_id {
                 sprite.id = None;
             }
-            next_auto_sprite_id = actual_id + 1;
+            next_auto_sprite_id = actual_id.wrapping_add(1);
         }
     }
 }
@@ -1185,7 +1185,7 @@ fn all_sprite_ids<'a>(entry_sprites: impl IntoIterator<Item=&'a IndexMap<Sp<Iden
     for sprites in entry_sprites {
         for sprite in sprites.values() {
             let actual_id = sprite.id.unwrap_or(next_auto_sprite_id);
-            next_auto_sprite_id = actual_id + 1;
+            next_auto_sprite_id = actual_id.wrapping_add(1);
             out.push(actual_id);
         }
     }
